@@ -44,13 +44,13 @@ CHECKS = {
         technique="deterministic simulation: seeded life-cycle histories of the C++ cipher/hash/xof objects (every construction and keying path, every overload) mirrored call by call through the C API; the harness translation unit is the compile obligation",
         category="exploration",
         text="(1) Programs: asim/worlds/cppobj.cpp instantiates every public member and overload of the 12 cipher classes, hash/hasha, xof/xofa, xof[a]_with_output_length<1,17,32,64> and the byte-array helpers; if it stops compiling with an error located in a /repo header the check reports a C17 violation whose replay file holds the compiler log. (2) Histories: up to 3 cipher objects and 3 hash/xof objects live at once and go through default/key/NULL-key/saved-key/zero-length construction, set_key (full, zero length with NULL and non-NULL pointer, saved ISAP key, undocumented length -> false), set_nonce(0..24)/set_counter, encrypt/decrypt through all four overloads incl. tampered and too-short inputs, save_key, randomize_key, clear, copy construction, assignment (incl. self), reset, pad, destroy; every output must equal the C function for the model (key, nonce) or the mirrored C state, failed byte_array decrypts must leave an empty array, a crash counts as a violation.",
-        note="Trusted: the C API of the same library as reference (C01..C05 not claimed); g++ as the compiler that decides 'compiles when used'.",
+        note="Trusted: the C API of the same library as reference (C01..C05 not claimed), for the byte-array helper functions too; g++ as the compiler that decides 'compiles when used'.",
         design="§3 W8, §4 C17"),
     "C19": dict(
         technique="deterministic simulation: the tools' real main() in forked simulated processes over an in-memory file system with scripted syscall faults (EINTR/EAGAIN/short I/O/EIO/ENOSPC/open failure), crash points, tampering and entropy failure; thorough adds systematic k-th-call and every-byte sweeps",
         category="exploration",
         text="Seeded scenarios of asconcrypt (-e/-d/auto-detect/-o/-p/-k/-g/stdin-stdout) and asconsum (hash and -c check mode) run as simulated processes against a simulated OS; faults and crash points are attached to a specific call of a specific invocation. Oracles: round-trip identity; exit != 0 and no output file after wrong password, any bit flip, truncation (= writer crashed after any prefix), extension, any hard I/O fault or entropy failure; transient faults end in correct success or loud failure; asconsum output equals the library digest lines; check mode says OK exactly for unmodified files. Thorough adds fault_enumeration-style sweeps (k-th read/write fails for every k; every truncation length; one bit in every byte) on small files; the claimed level stays exploration because scenarios are sampled.",
-        note="Trusted: the simulated OS (simos.c); whether a left-over file is a valid container is decided by the tool's own fault-free decrypt of it (no container format or PBKDF2 parameter is hard-coded in the oracle); PBKDF2 rounds reduced by a wrapper in most runs; close() errors and list-file read errors in check mode are not judged (not in the statement).",
+        note="Trusted: the simulated OS (simos.c); whether a left-over file is a valid container is decided by the tool's own fault-free decrypt of it (no container format or PBKDF2 parameter is hard-coded in the oracle); PBKDF2 rounds reduced by a wrapper in most runs; close() errors, hard read errors in check mode, the exit status after a malformed list line, whether an empty or >= 1000-character password is accepted, and the layout of digest lines and key files are not judged (not in the statement).",
         design="§3 W5, §4 C19"),
     "C20": dict(
         technique="deterministic simulation: seeded operation histories on a pool of aliased non-STL byte_array values mirrored by std::vector, with injected allocation failures; hex codec under generated hostile texts and capacities against a grammar model",
@@ -68,18 +68,18 @@ CHECKS = {
         technique="deterministic simulation re-executed under ASan+UBSan with poisoned canaries, exact-size buffers, guard pages for assembly code, null pointers for empty inputs and hostile argument vectors, over backend/share configurations",
         category="exploration",
         text="All worlds (network, entropy/storage faults, object histories, masked tapes, C++ life cycles, byte_array with allocation faults, the tools in the simulated OS with hostile argv/files) are re-run in a gcc -fsanitize=address,undefined -fno-sanitize-recover build of the library, the C++ wrappers and the tools, over nine backend x share combinations in quick (all five backends; key shares below the maximum and data shares below the key shares included) or 14 in thorough. Every output buffer is exact-size at a seeded misalignment with ASan-poisoned canaries; a quarter of the runs place buffers against PROT_NONE pages so that uninstrumentable assembly is covered. Only sanitizer reports, guard faults, crashes and canary damage count.",
-        note="Trusted: ASan/UBSan of gcc 12; assembly code is covered only by guard pages/canaries; functional mismatches are deliberately ignored here.",
+        note="Trusted: ASan/UBSan of gcc 12; assembly code is covered only by guard pages/canaries (inputs as well as outputs end at PROT_NONE pages in a quarter of the runs; every masked word and state is its own exact-size allocation); functional mismatches are deliberately ignored here.",
         design="§4 C12"),
     "C13": dict(
         technique="deterministic simulation with twin-secret executions: every plan runs twice in one process with different keys, messages, fed entropy and entropy tape; object bytes after free/clear()/destructor must be identical; release (-O3) build",
         category="exploration",
         text="The histories of worlds stream, channel, prng, keystore and cppobj (every object type named in the property, at arbitrary points of its life incl. mid-stream free, re-init, copies, failed decrypts) are executed twice with the same plan and schedule but different secrets; after every free, clear() or destructor the raw bytes of the object are compared between the two executions. C++ objects are placement-constructed in harness-owned storage so their bytes stay readable. Built with the exact release flags (-O3) of the shipped library, on all five backends at the default shares plus four (quick) or 21 (thorough) reduced/enlarged share configurations, because object layouts depend on them.",
-        note="Trusted: the twin construction (only dependence on secrets is flagged, constant residue is allowed); stack residue is out of scope (the statement is about the bytes of the object).",
+        note="Trusted: the twin construction (keys, messages, nonces, AD, fed entropy and the entropy tape differ between the twins; only dependence on them is flagged, constant residue is allowed; fields that are a function of the plan alone - positions, counters - are equal in both twins and cannot be seen); stack residue is out of scope (the statement is about the bytes of the object).",
         design="§4 C13"),
     "C10": dict(
         technique="deterministic simulation: masked word/state/key/AEAD operation histories with the random source replaced at link time by simulator-controlled tapes (zero, ones, constant, periodic, counter, random, adversarial), over share-count x backend configurations",
         category="exploration",
-        text="The five TRNG-mixer functions are replaced by a tape reader so that every 32/64-bit value the masked code draws is chosen by the simulator (this reaches the x86-64 assembly word backend too). Seeded histories over pools of masked words, states and keys (load/load_partial/load_32/store/store_partial/zero/xor/replace/randomize/from_xN/pad/separator; xN_permute for every starting round with preserved or fresh randomness; copy_from/to_x1 and share-count conversions; key init/extract/randomize; the three masked AEADs incl. tampered inputs) are compared, through public observers only, with the unmasked computation by the library itself. Re-randomisation must preserve the value and (random tape, distinct non-zero words) change every share. Quick: 15 configurations; thorough: all 16 valid share combinations on asm, c64 and c32 plus direct-xor and generic.",
+        text="The five TRNG-mixer functions are replaced by a tape reader so that every 32/64-bit value the masked code draws is chosen by the simulator (this reaches the x86-64 assembly word backend too). Seeded histories over pools of masked words, states and keys (load/load_partial/load_32/store/store_partial/zero/xor/replace/randomize/from_xN/pad/separator; xN_permute for every starting round with preserved or fresh randomness; copy_from/to_x1 and share-count conversions; key init/extract/randomize; the three masked AEADs incl. tampered inputs) are compared, through public observers only, with the unmasked computation by the library itself. Re-randomisation must preserve the value and (random tape, distinct non-zero words, or no word drawn at all) change every share; masked AEAD histories re-randomise their key before and between uses. Quick: 15 configurations; thorough: all 16 valid share combinations on asm, c64 and c32 plus direct-xor and generic.",
         note="Trusted: the library's unmasked permutation/AEAD as reference; tape reader; value semantics of load_partial/replace/pad as documented in ascon-masked-word.h.",
         design="§3 W7, §4 C10"),
     "C06": dict(
